@@ -14,7 +14,7 @@ From Alpaqa Require Import Num NumR Vec Prox ProxProofs ProxVec SolverStatus Sol
      AugLag AugLagProofs Panoc PanocProofs PanocLen AlmCompose AlmComposeProofs AlmComposeKkt AlmPanoc AlmPanocProofs
      ZeroFpr ZeroFprProofs ZeroFprLen AlmZeroFpr AlmZeroFprProofs
      Directions PanocDir PanocDirProofs PanocDirLen AlmPanocDir AlmPanocDirProofs
-     AlmPantr AlmPantrProofs AlmFista AlmFistaProofs.
+     AlmPantr AlmPantrProofs AlmFista AlmFistaProofs AlmPanocDirRefine.
 Import ListNotations.
 Local Open Scope R_scope.
 
@@ -609,3 +609,25 @@ Example C01_alm_fista_nonvacuous :
     f_status (co_final co) = Converged /\ co_x co = [0] /\ f_y (co_final co) = [0].
 Proof. exact (conj nv_fhypotheses nv_fconverged). Qed.
 Print Assumptions C01_alm_fista_nonvacuous.
+
+(* (10) REFINEMENT of whole composed runs: every run of the shipped-stack model (ALM ∘ PANOC with ANY stateful provider, any initial
+   provider state) IS a run of the oracle-direction model alm_panoc of (3), for the oracle "the j-th apply call of the whole ALM run
+   (GLOBAL index across inner solves) returned what the provider returned there": same ALM trace (every record), same final statistics
+   and status, same x, same cumulative counters; the inner logs agree up to the q field of τ = 0 records.  So every theorem about
+   alm_panoc that holds for every direction oracle holds for the shipped stacks (lifts PANOCDIR_refines_oracle_model through the
+   composition; (7) is the instance of this transfer for the KKT certificate, proved there directly from the inner contract). *)
+Theorem C01_alm_panoc_provider_refines_oracle_model :
+  forall (Pb : problem (T:=R)) (prov : fn -> bool) (wm_supplied : list R -> list R) (Clb Cub : list (option R)) (l1 : list R)
+    (split : nat) (D : Type) (ops : dirops R D) (stop_req time_up : counters -> bool)
+    (outer_oot : nat -> bool) (PP : Panoc.params (T:=R)) (AP : alm_params (T:=R)) (ls_fuel inner_fuel : nat)
+    (d0 : D) (outer_fuel : nat) (nanv : R) (Σ0 : option (list R)) (y0 x0 : list R) (coD : cout (counters * D) (resultD D)),
+  alm_panoc_dir Pb prov wm_supplied Clb Cub l1 split D ops stop_req time_up outer_oot PP AP ls_fuel inner_fuel d0 outer_fuel nanv Σ0 y0 x0
+    = Some coD ->
+  exists co : cout counters (result (T:=R)),
+    alm_panoc Pb prov wm_supplied Clb Cub l1 split
+              (fun j _ => nth j (traces D (co_logs coD)) None)      (* the oracle: j-th apply result of the whole run *)
+              (d_has_initial D ops) stop_req time_up outer_oot PP AP ls_fuel inner_fuel outer_fuel nanv Σ0 y0 x0 = Some co /\
+    co_trace co = co_trace coD /\ co_final co = co_final coD /\ co_x co = co_x coD /\ co_w co = fst (co_w coD) /\
+    Forall2 (log_sim D) (co_logs coD) (co_logs co).
+Proof. exact alm_panoc_dir_refines. Qed.
+Print Assumptions C01_alm_panoc_provider_refines_oracle_model.
